@@ -53,3 +53,14 @@ def _twin(sc, tr):
 
 
 t2_tasks(PROP, "twin", [("custom", "", {})], [_twin], twin="twin:every response is None")
+
+
+# ------------------------------------------------------------------------------------------------ T1: preprocessors forward responses and return values
+# "also when preprocessors ... are interleaved": the engine's preprocessors (SupplementalData, baseline, relative_set ...) are built on
+# plan_mutator; with a processor that changes nothing it must be transparent - same messages, every response forwarded to the wrapped
+# plan, the plan's return value returned (this is what RunEngineResult.plan_result shows).  C20's bisimulation, re-used here.
+from . import C20 as _c20   # noqa: E402
+
+task("plan_mutator[noop]", PROP, functions=[f"{_c20.MP}:plan_mutator"],
+     expect=[f"{_c20.MP}:plan_mutator[noop]#outcome[same yield / return / raise at every step]"])(_c20.plan_mutator_noop)
+task("msg_mutator[identity]", PROP, functions=[f"{_c20.MP}:msg_mutator"])(_c20.msg_mutator_identity)
